@@ -3,7 +3,9 @@
 # against the check of its property. Prints one DETECTED / MISSED / MACHINERY line per patch.
 cd "$(dirname "$0")/.."
 lib/selfmut_all.sh "$@"
+SH_K=${MATRIX_SHARD%%/*}; SH_N=${MATRIX_SHARD##*/}; : ${SH_K:=0}; : ${SH_N:=1}; idx=0
 for d in seeded/*/; do
+  idx=$((idx+1)); if [ $((idx % SH_N)) -ne $SH_K ]; then continue; fi
   id=$(basename $d)
   prop=$(python3 -c "import json,sys;print(json.load(open('$d/meta.json'))['property'])")
   echo "== seeded $id -> $prop"
